@@ -101,11 +101,13 @@ class DecodeTracer:
     PREFIX = (seams.REPO + 'decoders' + '/',
               seams.REPO + 'error_models' + '/')
 
-    def __init__(self, ki_at=None, cap=3_000_000):
+    def __init__(self, ki_at=None, cap=3_000_000, count_only=False):
         self.ki_at = ki_at
         self.cap = cap
         self.n = 0
         self.fired = None
+        self.count_only = count_only
+        self.first = {}
 
     def _g(self, frame, event, arg):
         if frame.f_code.co_filename.startswith(self.PREFIX):
@@ -115,6 +117,8 @@ class DecodeTracer:
     def _l(self, frame, event, arg):
         if event == 'line':
             self.n += 1
+            if self.count_only:
+                self.first.setdefault(frame.f_code, self.n)
             if self.ki_at is not None and self.n == self.ki_at:
                 self.fired = [frame.f_code.co_filename[len(seams.REPO):],
                               frame.f_lineno]
@@ -355,6 +359,7 @@ def execute_here(plan, keep_events=False):
         last = {}
         returned = {}     # decoder index -> (array object, digest)
         watch = set()     # decoders whose previous call was interrupted
+        called = set()    # decoders that had their first call
         dtype = plan.get('syn_dtype', 'native')
         rc = None
         for oi, op in enumerate(ops):
@@ -381,7 +386,40 @@ def execute_here(plan, keep_events=False):
                 raw['r'] = dec.decode(s)
                 return raw['r']
             tracer = None
-            if op.get('ki_line') is not None:
+            if op.get('ki_first_activation') is not None \
+                    and di not in called:
+                # aim a little after the first entry of one of the functions
+                # this decoder's FIRST call enters (lazy initialisation
+                # lives there); the line numbering comes from a dry run on a
+                # separate fresh set of objects
+                rank, off = op['ki_first_activation']
+                d_code = make_code(cfg)
+                d_noise = make_noise(nz2 if dspec.get('noise2') and nz2
+                                     else nz)
+                try:
+                    d_dec = make_decoder(d_code, d_noise, dspec)
+                    cnt = DecodeTracer(count_only=True)
+                    d_s = syndrome_of(d_code, op['error'], dtype)
+                    sys.settrace(cnt._g)
+                    try:
+                        try:
+                            d_dec.decode(d_s)
+                        except Exception:
+                            pass
+                    finally:
+                        sys.settrace(None)
+                    firsts = sorted(cnt.first.values())
+                    if firsts:
+                        at = min(max(1, cnt.n), firsts[rank % len(firsts)]
+                                 + off)
+                        tracer = DecodeTracer(ki_at=at)
+                        sim.probe('interrupt_aimed_at_first_activation')
+                except Exception:
+                    pass
+            called.add(di)
+            if tracer is not None:
+                pass
+            elif op.get('ki_line') is not None:
                 tracer = DecodeTracer(ki_at=op['ki_line'])
             elif di in watch:
                 # first call after an interrupted one: watched for
@@ -574,8 +612,59 @@ def pair_plans(tier, seed):
     return out
 
 
+def first_activation_plans(tier, seed):
+    """Fault enumeration over first activations: for a few decoder /
+    code / noise configurations, Ctrl-C 1 .. 300 lines after every function
+    entered for the first time during the decoder's first call; then six
+    more calls compared with fresh decoders."""
+    rng = stream(seed, 'fa')
+    combos = [
+        ({'code': 'Toric2DCode', 'params': [3, 3], 'deform': None},
+         NOISES[4], 'BPOSD'),
+        ({'code': 'Toric2DCode', 'params': [3, 3], 'deform': None},
+         NOISES[2], 'BPOSD_cu'),
+        ({'code': 'Toric2DCode', 'params': [3, 3], 'deform': None},
+         NOISES[0], 'UnionFindDecoder'),
+        ({'code': 'XCubeCode', 'params': [2, 2, 2], 'deform': None},
+         NOISES[0], 'XCubeMatchingDecoder'),
+        ({'code': 'Toric3DCode', 'params': [2, 2, 2], 'deform': None},
+         NOISES[1], 'SweepMatch'),
+        ({'code': 'Planar2DCode', 'params': [3, 2], 'deform': 'XZZX'},
+         NOISES[0], 'BPOSD'),
+    ]
+    if tier == 'quick':
+        ranks, offs = range(14), (1, 12, 70, 300)
+    else:
+        ranks, offs = range(30), (1, 5, 12, 30, 70, 150, 300, 900)
+    out = []
+    for cfg, nz, kind in combos:
+        n = make_code(cfg).n
+        for rank in ranks:
+            for off in offs:
+                ops = []
+                prev = None
+                for j in range(7):
+                    e = gen_error(rng, n, prev)
+                    prev = e
+                    op = {'op': 'decode', 'dec': 0, 'error': e}
+                    if j == 0:
+                        while set(e) == {'I'}:
+                            e = gen_error(rng, n, None)
+                        op['error'] = e
+                        op['ki_first_activation'] = [rank, off]
+                    ops.append(op)
+                out.append({'property': PROP, 'kind': 'history',
+                            'seed': H(seed, 'fa', len(out)), 'cfg': cfg,
+                            'noise': dict(nz), 'noise2': None,
+                            'decoders': [{'kind': kind, 'rate': 0.08}],
+                            'ops': ops, 'syn_dtype': 'native'})
+    return out
+
+
 def make_jobs(tier, seed):
     jobs = [{'plans': [p]} for p in pair_plans(tier, seed)]
+    fa = first_activation_plans(tier, seed)
+    jobs += [{'plans': fa[i:i + 12]} for i in range(0, len(fa), 12)]
     n = 1600 if tier == 'quick' else 40000
     per = 10
     for b in range(n // per):
